@@ -17,7 +17,7 @@ open Dawgs.Generated (Visitors.enterActions Visitors.exitActions Visitors.enterM
 def T : Tables :=
   { enter := Visitors.enterActions, exit := Visitors.exitActions, enterM := Visitors.enterMethods, exitM := Visitors.exitMethods,
     atoms := Generated.Visitors.atomCodes, filters := [], base := Visitors.baseVisitor, root := Visitors.rootVisitor,
-    unsupM := Generated.Visitors.unsupMethods }
+    unsupM := Generated.Visitors.unsupMethods, unsupAfter := Generated.Visitors.unsupAfterFirst }
 /-- frontend.DefaultCypherContext(): the five default filters -/
 def TD : Tables := { T with filters := Visitors.defaultFilters }
 
